@@ -108,6 +108,36 @@ Example C07_values_nonvacuous :
   get_slice_as_array false {| aisbyte := false; abytes := []; adata := [1;2;3] |} 1 3 = Ok (Some [2;3]).
 Proof. vm_compute. repeat split; reflexivity. Qed.
 
+(* defer: the receiver / argument hoisting scans (findDeferCallArgsStart, findDeferCallEnd, the last-dot
+   loop, make + copy of the suffix) stay inside the token slice for every token sequence and position *)
+Theorem C07_hoist_receiver_no_panic : forall (toks : list tk) (start : Z), 0 <= start -> hoist_receiver true toks start <> Panic.
+Proof. exact hoist_receiver_no_panic. Qed.
+
+(* without the "argsStart >= len(Tokens)" half of the guard a chain that runs to the end of the tokens
+   ("defer wg." as the last tokens of the source) indexes one past the end *)
+Theorem C07_hoist_receiver_unguarded_refuted : exists toks start, 0 <= start /\ hoist_receiver false toks start = Panic.
+Proof. exact hoist_receiver_unguarded_refuted. Qed.
+
+(* sync.RWMutex / sync.Mutex driven through callRWMutexMethod / callMutexMethod from one goroutine: no
+   sequence of Lock, Unlock, RLock, RUnlock, TryLock, TryRLock reaches Go's fatal "unlock of unlocked
+   mutex" errors (the run ends early only by blocking) *)
+Theorem C07_rwmutex_no_fatal : forall ops : list mop, ~ In MFatal (rw_run false rwm0 ops).
+Proof. intros ops. apply rw_run_no_fatal. unfold rw_inv, rwm0. cbn. repeat split; discriminate || reflexivity. Qed.
+
+Theorem C07_mutex_no_fatal : forall ops : list mop, ~ In MFatal (mx_run (false, false) ops).
+Proof. intros ops. apply mx_run_no_fatal. Qed.
+
+(* counting the reader before TryRLock and never taking it back: Lock; TryRLock (fails); Unlock; RUnlock is fatal *)
+Theorem C07_rwmutex_precount_refuted : In MFatal (rw_run true rwm0 [MLock; MTryRLock; MUnlock; MRUnlock]).
+Proof. exact rw_run_pre_refuted. Qed.
+
+Example C07_defer_mutex_nonvacuous :
+  hoist_receiver true [TIdent; TDot; TIdent; TDot; TIdent; TLParen; TIdent; TRParen; TOtherTok] 0 = Ok (Some (3, 8)) /\
+  hoist_receiver true [TIdent; TDot] 0 = Ok None /\
+  rw_run false rwm0 [MLock; MTryRLock; MUnlock; MRUnlock; MRLock; MTryLock; MRUnlock; MUnlock]
+    = [MDone; MBool false; MDone; MNotLocked; MDone; MBool false; MDone; MNotLocked].
+Proof. vm_compute. repeat split; reflexivity. Qed.
+
 (* ---- non-vacuity: each kernel does real work on a concrete non-trivial input *)
 Definition T (c : N) (s : str) (p : Z) : tok := {| tclass := c; tspell := s; tline := 1; tpos := p |}.
 Definition demo_table : list crush :=
